@@ -362,7 +362,7 @@ func successPoints(f *ssa.Function, idx int) []successPoint {
 		if idx >= len(r.Results) {
 			continue
 		}
-		v := r.Results[idx]
+		v := retVal(r, idx)
 		expand(f, v, r.Block(), r, &out, 0, map[ssa.Value]bool{})
 	}
 	return out
@@ -618,4 +618,36 @@ func fieldOf(v ssa.Value) (string, string, bool) {
 		return "", "", false
 	}
 	return name, st.Field(idx).Name(), true
+}
+
+// retVal returns result #idx of a return, looking through go/ssa's defer-induced spilling of
+// results ("*res = v; rundefers; t = *res; return t"): a load of a local whose reaching store is
+// in the same block is replaced by the stored value.
+func retVal(r *ssa.Return, idx int) ssa.Value {
+	return unspill(r.Results[idx])
+}
+
+func unspill(v ssa.Value) ssa.Value {
+	ld, ok := v.(*ssa.UnOp)
+	if !ok || ld.Op != token.MUL {
+		return v
+	}
+	al, ok := ld.X.(*ssa.Alloc)
+	if !ok || al.Heap {
+		return v
+	}
+	b := ld.Block()
+	var last ssa.Value
+	for _, in := range b.Instrs {
+		if in == ssa.Instruction(ld) {
+			break
+		}
+		if st, ok := in.(*ssa.Store); ok && st.Addr == ssa.Value(al) {
+			last = st.Val
+		}
+	}
+	if last != nil {
+		return last
+	}
+	return v
 }
